@@ -496,6 +496,11 @@ def aten_getattr(interp, t: ATen, name):
         return _m(lambda interp, dim=None: V.Shape(list(t.shape_l)) if dim is None else t.shape_l[dim])
     if name == "grad":
         raise Unsupported(".grad of an algebraic tensor")
+    from .prims import REG as _REG
+    for mod in ("torch.", "torch.linalg.", "torch.nn.functional."):
+        if mod + name in _REG:
+            fn = _REG[mod + name]
+            return _m(lambda interp, *a, **k: fn(interp, t, *a, **k))
     return MISSING
 
 
@@ -692,17 +697,22 @@ def t_cdist(interp, a, b, p=2.0, compute_mode="use_mm_for_euclid_dist_if_necessa
 
 
 @prim("torch.topk")
-def t_topk(interp, t, k=None, largest=True, dim=-1):
+def t_topk(interp, t, k=None, dim=-1, largest=True, sorted=True):
     interp.cx.oblige("prim.topk.k_in_range", z3.And(0 <= lift(k), lift(k) <= lift(t.shape_l[-1])), kind="prim")
     sh = t.shape_l[:-1] + [k]
-    vals = mk("topk_vals", [t, k, largest], sh, t.dtype)
-    idx = mk("topk_idx", [t, k, largest], sh, U("int64", DtypeS))
-    return (vals, idx)
+    if sorted is True:
+        vals = mk("topk_vals", [t, k, largest], sh, t.dtype)
+        idx = mk("topk_idx", [t, k, largest], sh, U("int64", DtypeS))
+    else:  # the order of the returned entries is unspecified: a different function
+        vals = mk("topk_vals_unsorted", [t, k, largest], sh, t.dtype)
+        idx = mk("topk_idx_unsorted", [t, k, largest], sh, U("int64", DtypeS))
+    return V.NamedPair((vals, idx), ("values", "indices"))
 
 
 @prim("torch.sort")
 def t_sort(interp, t, dim=-1, descending=False):
-    return (mk("sort_vals", [t, dim, descending], t.shape_l, t.dtype), mk("sort_idx", [t, dim, descending], t.shape_l, U("int64", DtypeS)))
+    return V.NamedPair((mk("sort_vals", [t, dim, descending], t.shape_l, t.dtype),
+                        mk("sort_idx", [t, dim, descending], t.shape_l, U("int64", DtypeS))), ("values", "indices"))
 
 
 @prim("torch.argsort")
@@ -712,6 +722,8 @@ def t_argsort(interp, t, dim=-1, descending=False):
 
 @prim("torch.narrow")
 def t_narrow(interp, t, dim=None, start=None, length=None):
+    if not isinstance(t, ATen):
+        raise Unsupported("narrow of a non-tensor")
     n = lift(t.shape_l[dim])
     interp.cx.oblige("prim.narrow.in_range", z3.And(0 <= lift(start), 0 <= lift(length), lift(start) + lift(length) <= n), kind="prim")
     sh = list(t.shape_l)
@@ -734,7 +746,7 @@ def t_one_hot(interp, idx, num_classes=-1):
     return mk("one_hot", [idx, num_classes], idx.shape_l + [num_classes], U("int64", DtypeS))
 
 
-@prim("torch.nn.functional.softmax")
+@prim("torch.nn.functional.softmax", "torch.softmax")
 def t_softmax(interp, t, dim=None):
     return mk("softmax", [t, dim], t.shape_l, t.dtype)
 
@@ -852,7 +864,11 @@ def t_from_numpy(interp, x):
 
 
 @prim("numpy.apply_along_axis")
-def n_apply_along_axis(interp, fn, axis=None, arr=None):
+def n_apply_along_axis(interp, fn, axis=None, arr=None, *extra, **kwextra):
+    if extra or kwextra:
+        inner = fn
+        fn = V.Partial(inner, (), {})  # func1d(slice, *extra, **kwextra)
+        fn = V.SymMethod(lambda interp2, row, inner=inner: interp.call(inner, [row] + list(extra), dict(kwextra)))
     """Row-wise application over the last axis: the function is run once on a generic row (contract: result
     row i = fn(row i)); a 1-d input is one row."""
     if axis != -1:
